@@ -15,6 +15,8 @@ type Job struct {
 	Name  string
 	Time  time.Time
 	Fn    scheduler.JobFunc
+	// Runtime is the function a periodic job asks for the time of its next run.
+	Runtime scheduler.RuntimeFunc
 }
 
 // Scheduler records requests; names in Existing are refused as duplicates.
@@ -63,9 +65,9 @@ func (s *Scheduler) ScheduleJob(_ context.Context, class string, name string, ru
 	return nil
 }
 
-func (s *Scheduler) SchedulePeriodicJob(_ context.Context, class string, name string, _ scheduler.RuntimeFunc, job scheduler.JobFunc) error {
+func (s *Scheduler) SchedulePeriodicJob(_ context.Context, class string, name string, runtime scheduler.RuntimeFunc, job scheduler.JobFunc) error {
 	defer s.guard()()
-	s.Periodic = append(s.Periodic, &Job{Class: class, Name: name, Fn: job})
+	s.Periodic = append(s.Periodic, &Job{Class: class, Name: name, Fn: job, Runtime: runtime})
 	return nil
 }
 
